@@ -178,3 +178,45 @@ impl<T> Executor<T> {
             clear_readiness ==> r == Ok::<PostAction, ExecutorError>(action),
 //@ endslice
 }
+
+//@ region executor_src_spec props=C16,C07,C15
+impl<T> Executor<T> {
+    pub closed spec fn src(&self) -> PingSource { self.source }
+}
+//@ endregion
+//@ open src/sources/futures.rs / impl EventSource for Executor<T>
+//@ item src/sources/futures.rs / impl EventSource for Executor<T> / type Event props=C16,C07,C15
+//@ enditem
+//@ item src/sources/futures.rs / impl EventSource for Executor<T> / type Metadata props=C16,C07,C15
+//@ enditem
+//@ item src/sources/futures.rs / impl EventSource for Executor<T> / type Ret props=C16,C07,C15
+//@ enditem
+//@ item src/sources/futures.rs / impl EventSource for Executor<T> / type Error props=C16,C07,C15
+//@ enditem
+//@ region executor_protocol props=C16,C07,C15
+    // as far as registration goes the source IS its ping source (whose registration is that of its Generic<eventfd>)
+    open spec fn wf(&self) -> bool { self.src().wf() }
+    open spec fn registered(&self) -> bool { self.src().registered() }
+    open spec fn register_req(&self) -> bool { self.src().register_req() }
+    open spec fn register_ens(o: &Self, n: &Self, ok: bool) -> bool { PingSource::register_ens(&o.src(), &n.src(), ok) }
+    open spec fn reregister_req(&self) -> bool { self.src().reregister_req() }
+    open spec fn reregister_ens(o: &Self, n: &Self, ok: bool) -> bool { PingSource::reregister_ens(&o.src(), &n.src(), ok) }
+    open spec fn unregister_req(&self) -> bool { self.src().unregister_req() }
+    open spec fn unregister_ens(o: &Self, n: &Self, ok: bool) -> bool { PingSource::unregister_ens(&o.src(), &n.src(), ok) }
+    open spec fn process_req(&self) -> bool { self.src().process_req() }
+    open spec fn may_call(&self, readiness: Readiness, token: Token, e: T) -> bool { true }
+    open spec fn cb_req<CbF: FnMut(T, &mut ())>(&self, readiness: Readiness, token: Token, callback: CbF) -> bool { true }
+    open spec fn process_ens(o: &Self, n: &Self, readiness: Readiness, token: Token, r: Result<PostAction, ExecutorError>) -> bool { true }
+//@ endregion
+//@ item src/sources/futures.rs / impl EventSource for Executor<T> / fn process_events props=C16,C07,C15 sigonly
+//@ rw R8 1 <<process_events<F>>> => <<process_events<CbF>>>
+//@ rw R8 1 <<mut callback: F,>> => <<mut callback: CbF,>>
+//@ rw R8 1 <<F: FnMut(T, &mut ()),>> => <<CbF: FnMut(T, &mut ()),>>
+//@ enditem
+//@ item src/sources/futures.rs / impl EventSource for Executor<T> / fn register props=C16,C07,C15
+//@ enditem
+//@ item src/sources/futures.rs / impl EventSource for Executor<T> / fn reregister props=C16,C07,C15
+//@ enditem
+//@ item src/sources/futures.rs / impl EventSource for Executor<T> / fn unregister props=C16,C07,C15
+//@ enditem
+//@ close
